@@ -1,5 +1,5 @@
 """C17 — ScratchDB buffers a batch and commits it atomically or not at all (DESIGN §5 C17)."""
-from ..engine import explore, unjson, HarnessError
+from ..engine import explore, replay_doc
 from ..report import Report
 from ..scratchsys import ScratchSys
 
@@ -22,24 +22,5 @@ def run(tier, seed):
 
 
 def replay(doc):
-    outcomes = []
-    for _ in range(2):
-        kw = doc["system"]["kwargs"]
-        sysm = ScratchSys(keys=tuple(kw["keys"]), values=tuple(kw["values"]), seed=kw["seed"])
-        hist = [unjson(e) for e in doc["history"]]
-        snap, model = sysm.initial()[hist[0][1]]
-        found = []
-        for ev in hist[1:]:
-            found += [v["check"] for v in sysm.state_check(snap, model)]
-            st = sysm.step(snap, model, ev)
-            found += [v["check"] for v in st.viols]
-            if st.snap is None:
-                break
-            snap = st.snap
-        else:
-            found += [v["check"] for v in sysm.state_check(snap, model)]
-        outcomes.append(found)
-    if outcomes[0] != outcomes[1]:
-        raise HarnessError("replay is not deterministic")
-    print("replayed history; failing checks:", outcomes[0])
-    return doc["check"] in outcomes[0]
+    kw = doc["system"]["kwargs"]
+    return replay_doc(lambda: ScratchSys(keys=tuple(kw["keys"]), values=tuple(kw["values"]), seed=kw["seed"]), doc)
